@@ -29,7 +29,7 @@ LEAN = dict(
     theorems=[T + n for n in [
         "step_monotone", "flags_monotone", "ro_refuses", "ro_refuses_after_nav", "skel_hides", "skel_hides_after_nav",
         "local_confined", "local_upward_refused", "restrict_only_adds", "attr_manager_restricted",
-        "legacy_parent_drops_flags", "current_table_ok"]]
+        "legacy_parent_drops_flags", "legacy_dataset_parent_escapes", "current_table_ok"]]
     + [B + n for n in ["table_ok", "table_covers_protocol"]],
     drivers=["drv_acl"],
 )
@@ -119,20 +119,44 @@ def steps_at(path, full):
     return out
 
 
-def enum_chains(start, depth, full):
-    """all chains of length 1..depth (explicit lists of steps) with the expected final path"""
+def enum_chains(start, depth, full, flags="-"):
+    """all chains of length 1..depth (explicit lists of steps) with the expected final path.
+    The generator keeps a rough expectation of where a step leads (node, local_only flag,
+    remembered parents) only to propose applicable steps; what really happens is decided by the
+    implementation and by the model."""
     res = []
 
-    def rec(path, chain, d):
+    def rec(path, loc, lps, chain, d):
         if chain:
             res.append((list(chain), path))
         if d == 0:
             return
         for st, nxt in steps_at(path, full):
+            loc2, lps2 = loc, lps
+            if st[0] == "p":
+                if loc:
+                    if not lps:
+                        chain.append(st)
+                        res.append((list(chain), nxt))  # expected to be refused
+                        chain.pop()
+                        continue
+                    nxt, lps2 = lps[0], lps[1:]
+            elif st[0] == "a":
+                if loc:
+                    chain.append(st)
+                    res.append((list(chain), nxt))  # expected to be refused
+                    chain.pop()
+                    continue
+                lps2 = ()
+            elif st[0] == "r":
+                if "l" in st[1]:
+                    loc2, lps2 = True, ()
+            elif st[2] != "":
+                lps2 = ((path,) + lps) if loc else ()
             chain.append(st)
-            rec(nxt, chain, d - 1)
+            rec(nxt, loc2, lps2, chain, d - 1)
             chain.pop()
-    rec(start, [], depth)
+    rec(start, "l" in flags, (), [], depth)
     return res
 
 
@@ -278,6 +302,8 @@ def do_step(n, st):
     if prim == "query":
         want = join(n.name, arg)
         return [x for x in n.metador.query("core.bib") if x.name == want][0]
+    if prim in ("require_group", "require_dataset") and join(n.name, arg) not in KIND and "r" not in flags_of(n):
+        raise KeyError(arg)  # navigation only: never let require_* create something
     if prim == "require_group":
         return n.require_group(arg)
     if prim == "require_dataset":
@@ -529,8 +555,8 @@ def gen_cases(ctx):
         plan = [("h5", 4, False), ("h5", 3, True), ("ih5", 3, False), ("ih5", 2, True)]
     for drv, depth, full in plan:
         for start in STARTS:
-            chains = [[c, KIND[p]] for c, p in enum_chains(start, depth, full)]
             for flags in FLAGSETS:
+                chains = [[c, KIND[p]] for c, p in enum_chains(start, depth, full, flags)]
                 per = 500 if drv == "h5" else 120
                 for i in range(0, len(chains), per):
                     cases.append(dict(kind="chains", drv=drv, start=start, flags=flags, chains=chains[i:i + per], depth=depth, full=full))
